@@ -29,9 +29,9 @@ package dir
 // Directory shape (I-dir): size is a multiple of the entry size; the name
 // cache, when present, remembers an entry-aligned offset.
 //@ specfunc dirShape(dip *inode.Inode) = dip.Size & 127 == 0 && (dip.Dcache != nil ==> dip.Dcache.Lastoff & 127 == 0 && dip.Dcache.cache != nil)
-//@ specfunc dirReady(dip *inode.Inode, op *fstxn.FsTxn) = dirOK(dip, op) && dirShape(dip)
+//@ specfunc dirReady(dip *inode.Inode, op *fstxn.FsTxn) = dirOK(dip, op) && (dip.Kind == 2 ==> dirShape(dip))
 // what a directory operation leaves behind: inode invariants, synced-if-it-was, other inodes untouched
-//@ specfunc dirDone(dip *inode.Inode, op *fstxn.FsTxn) = inodeInv(dip) && dirShape(dip) && opOpen(op) && dirtyInv() && (!dirtyinum[dip.Inum] || old(dirtyinum)[dip.Inum]) && othersClean(dip) && listsStable(op.Atxn)
+//@ specfunc dirDone(dip *inode.Inode, op *fstxn.FsTxn) = inodeInv(dip) && (dip.Kind == 2 ==> dirShape(dip)) && opOpen(op) && dirtyInv() && (!dirtyinum[dip.Inum] || old(dirtyinum)[dip.Inum]) && othersClean(dip) && listsStable(op.Atxn)
 
 // E7 (C13): an insertion writes exactly one entry-aligned slot (the first
 // free one at or after lastoff, else a new slot at the end); entries never move.
@@ -41,22 +41,26 @@ package dir
 //@   requires [I4-store] len(name) <= 112 @C04 @C19
 //@   preserves [allocInv] allocInv() @C15 @C04
 //@   allocates buf.Buf, marshal.Enc, marshal.Dec, cell:uint64, []uint8, dir.dirEnt
-//@   modifies dip.Size, dip.blks[*], dirtyinum, wroteinum, abits, op.Atxn.allocBnums, []uint64@alloctxn.AllocTxn.allocBnums, []uint8, buf.Buf.dirty
+//@   modifies dip.Size, dip.blks[*], dirtyinum, wroteinum, abits, op.Atxn.allocBnums, []uint64@alloctxn.AllocTxn.allocBnums, []uint8@buf.Buf.Data, buf.Buf.dirty
+//@   ensures [ibits-same] abits[theIalloc] == old(abits)[theIalloc] @C05
 //@   ensures [E7-slot] result0 & 127 == 0 && result0 <= old(dip.Size) @C13
 //@   ensures [E7-grow] dip.Size == old(dip.Size) || (result1 && result0 == old(dip.Size) && dip.Size == old(dip.Size) + 128) @C13 @C09
 //@   ensures dirDone(dip, op) && dip.Kind == 2
 //@   loop 0 invariant off & 127 == 0 && lastoff <= off && finalOff == 0 && dip.Size == old(dip.Size) && dip.Kind == 2 && inodeInv(dip) && dirShape(dip) && opOpen(op) && dirtyInv() && allocInv() && (!dirtyinum[dip.Inum] || old(dirtyinum)[dip.Inum]) && othersClean(dip) && listsStable(op.Atxn)
 //@   loop 0 decreases dip.Size - off
+//@   loop 0 invariant [ibits] abits[theIalloc] == old(abits)[theIalloc]
 
 //@ spec IsDirEmpty
 //@   props C05 C04 C11 C10
 //@   requires dirReady(dip, op) && dip.Kind == 2
 //@   preserves [allocInv] allocInv() @C15 @C04
 //@   allocates buf.Buf, marshal.Enc, marshal.Dec, cell:uint64, []uint8, dir.dirEnt
-//@   modifies dip.blks[*], dirtyinum, wroteinum, abits, op.Atxn.allocBnums, []uint64@alloctxn.AllocTxn.allocBnums, []uint8, buf.Buf.dirty
+//@   modifies dip.blks[*], dirtyinum, wroteinum, abits, op.Atxn.allocBnums, []uint64@alloctxn.AllocTxn.allocBnums, []uint8@buf.Buf.Data, buf.Buf.dirty
+//@   ensures [ibits-same] abits[theIalloc] == old(abits)[theIalloc] @C05
 //@   ensures dirDone(dip, op) && dip.Size == old(dip.Size) && dip.Kind == 2
 //@   loop 0 invariant off & 127 == 0 && off >= 256 && dip.Size == old(dip.Size) && dip.Kind == 2 && inodeInv(dip) && dirShape(dip) && opOpen(op) && dirtyInv() && allocInv() && (!dirtyinum[dip.Inum] || old(dirtyinum)[dip.Inum]) && othersClean(dip) && listsStable(op.Atxn)
 //@   loop 0 decreases dip.Size - off
+//@   loop 0 invariant [ibits] abits[theIalloc] == old(abits)[theIalloc]
 
 // C13 E1-E5: enumeration against the abstract directory contents. slotInum(o)
 // is the inode number stored in the 128-byte slot at offset o; the callback is
@@ -74,7 +78,8 @@ package dir
 //@   ghostset emitted = empty
 //@   ghostset emitany = false
 //@   allocates buf.Buf, marshal.Enc, marshal.Dec, cell:uint64, []uint8, dir.dirEnt, nfstypes.Entry3
-//@   modifies dip.blks[*], dirtyinum, wroteinum, abits, op.Atxn.allocBnums, []uint64@alloctxn.AllocTxn.allocBnums, []uint8, buf.Buf.dirty, nfstypes.Entry3, cell:*nfstypes.Entry3, map[string]dcache.Dentry, emitted, emitany, emitlast
+//@   modifies dip.blks[*], dirtyinum, wroteinum, abits, op.Atxn.allocBnums, []uint64@alloctxn.AllocTxn.allocBnums, []uint8@buf.Buf.Data, buf.Buf.dirty, nfstypes.Entry3, cell:*nfstypes.Entry3, map[string]dcache.Dentry, emitted, emitany, emitlast
+//@   ensures [ibits-same] abits[theIalloc] == old(abits)[theIalloc] @C05
 //@   ensures [E1-sound] emitSound(dip, start, dip.Size) @C13
 //@   ensures [E3-complete] emitComplete(dip, start, ite(result, dip.Size, emitlast + 128)) @C13
 //@   ensures [E4-eof] result ==> (forall o uint64 :: emitted[o] ==> o < dip.Size) @C13
@@ -85,6 +90,7 @@ package dir
 //@   loop 0 invariant [cpl] emitComplete(dip, start, off)
 //@   loop 0 invariant [last] (emitany ==> emitlast < off && emitlast >= start && emitted[emitlast]) && (!emitany ==> forall o uint64 :: !emitted[o])
 //@   loop 0 decreases dip.Size - off
+//@   loop 0 invariant [ibits] abits[theIalloc] == old(abits)[theIalloc]
 
 // Fn5 (C02), S3 (C10): the name cache and the name map.
 //@ specfunc dirModsOK(dip *inode.Inode, op *fstxn.FsTxn) = dirDone(dip, op) && dip.Kind == old(dip.Kind)
@@ -94,7 +100,8 @@ package dir
 //@   requires dirReady(dip, op) && dip.Kind == 2
 //@   preserves [allocInv] allocInv() @C15 @C04
 //@   allocates buf.Buf, marshal.Enc, marshal.Dec, cell:uint64, []uint8, dir.dirEnt, dcache.Dcache, map[string]dcache.Dentry, nfstypes.Entry3
-//@   modifies dip.Dcache, dip.blks[*], dirtyinum, wroteinum, abits, op.Atxn.allocBnums, []uint64@alloctxn.AllocTxn.allocBnums, []uint8, buf.Buf.dirty, nfstypes.Entry3, cell:*nfstypes.Entry3, map[string]dcache.Dentry, emitted, emitany, emitlast
+//@   modifies dip.Dcache, dip.blks[*], dirtyinum, wroteinum, abits, op.Atxn.allocBnums, []uint64@alloctxn.AllocTxn.allocBnums, []uint8@buf.Buf.Data, buf.Buf.dirty, nfstypes.Entry3, cell:*nfstypes.Entry3, map[string]dcache.Dentry, emitted, emitany, emitlast
+//@   ensures [ibits-same] abits[theIalloc] == old(abits)[theIalloc] @C05
 //@   ensures dip.Dcache != nil && fresh(dip.Dcache) && dip.Dcache.Lastoff == 0
 //@   ensures dirModsOK(dip, op) && dip.Size == old(dip.Size)
 
@@ -103,7 +110,8 @@ package dir
 //@   requires dirReady(dip, op)
 //@   preserves [allocInv] allocInv() @C15 @C04
 //@   allocates buf.Buf, marshal.Enc, marshal.Dec, cell:uint64, []uint8, dir.dirEnt, dcache.Dcache, map[string]dcache.Dentry, nfstypes.Entry3
-//@   modifies dip.Dcache, dip.blks[*], dirtyinum, wroteinum, abits, op.Atxn.allocBnums, []uint64@alloctxn.AllocTxn.allocBnums, []uint8, buf.Buf.dirty, nfstypes.Entry3, cell:*nfstypes.Entry3, map[string]dcache.Dentry, emitted, emitany, emitlast
+//@   modifies dip.Dcache, dip.blks[*], dirtyinum, wroteinum, abits, op.Atxn.allocBnums, []uint64@alloctxn.AllocTxn.allocBnums, []uint8@buf.Buf.Data, buf.Buf.dirty, nfstypes.Entry3, cell:*nfstypes.Entry3, map[string]dcache.Dentry, emitted, emitany, emitlast
+//@   ensures [ibits-same] abits[theIalloc] == old(abits)[theIalloc] @C05
 //@   ensures [Fn5-notdir] dip.Kind != 2 ==> result0 == 0 @C02
 //@   assumes [Fn5-lookup] dip.Kind == 2 ==> result0 == dnames[dip.Inum][name]
 //@   assumes [I3-validinum] result0 < 32768 && (result0 != 0 ==> result1 & 127 == 0 && result1 < dip.Size && liveinum[result0])
@@ -115,7 +123,8 @@ package dir
 //@   requires dirReady(dip, op)
 //@   preserves [allocInv] allocInv() @C15 @C04
 //@   allocates buf.Buf, marshal.Enc, marshal.Dec, cell:uint64, []uint8, dir.dirEnt, dcache.Dcache, map[string]dcache.Dentry, nfstypes.Entry3
-//@   modifies dip.Size, dip.Dcache, dip.blks[*], dirtyinum, wroteinum, abits, op.Atxn.allocBnums, []uint64@alloctxn.AllocTxn.allocBnums, []uint8, buf.Buf.dirty, nfstypes.Entry3, cell:*nfstypes.Entry3, map[string]dcache.Dentry, emitted, emitany, emitlast
+//@   modifies dip.Size, dip.Dcache, dip.blks[*], dirtyinum, wroteinum, abits, op.Atxn.allocBnums, []uint64@alloctxn.AllocTxn.allocBnums, []uint8@buf.Buf.Data, buf.Buf.dirty, nfstypes.Entry3, cell:*nfstypes.Entry3, map[string]dcache.Dentry, emitted, emitany, emitlast
+//@   ensures [ibits-same] abits[theIalloc] == old(abits)[theIalloc] @C05
 //@   ensures [E7-slot] result1 ==> result0 & 127 == 0 && result0 < dip.Size @C13
 //@   ensures [E7-size] dip.Size == old(dip.Size) @C13 @C09
 //@   ensures [Fn5-found] result1 ==> dip.Kind == 2 && old(dnames)[dip.Inum][name] != 0 @C02
@@ -128,7 +137,8 @@ package dir
 //@   requires [I3-store] inum < 32768 @C04
 //@   preserves [allocInv] allocInv() @C15 @C04
 //@   allocates buf.Buf, marshal.Enc, marshal.Dec, cell:uint64, []uint8, dir.dirEnt, dcache.Dcache, map[string]dcache.Dentry, nfstypes.Entry3
-//@   modifies dnames, dip.Size, dip.Dcache, dcache.Dcache.Lastoff, dip.blks[*], dirtyinum, wroteinum, abits, op.Atxn.allocBnums, []uint64@alloctxn.AllocTxn.allocBnums, []uint8, buf.Buf.dirty, nfstypes.Entry3, cell:*nfstypes.Entry3, map[string]dcache.Dentry, emitted, emitany, emitlast
+//@   modifies dnames, dip.Size, dip.Dcache, dcache.Dcache.Lastoff, dip.blks[*], dirtyinum, wroteinum, abits, op.Atxn.allocBnums, []uint64@alloctxn.AllocTxn.allocBnums, []uint8@buf.Buf.Data, buf.Buf.dirty, nfstypes.Entry3, cell:*nfstypes.Entry3, map[string]dcache.Dentry, emitted, emitany, emitlast
+//@   ensures [ibits-same] abits[theIalloc] == old(abits)[theIalloc] @C05
 //@   ghostexit dnames = ite(result, store(dnames, dip.Inum, store(dnames[dip.Inum], name, inum)), dnames)
 //@   ensures [Q1-refuse] (len(name) > 112 || dip.Kind != 2) ==> !result && dip.Size == old(dip.Size) && dirtyinum == old(dirtyinum) @C19 @C09
 //@   ensures [Fn5-add] result ==> dnames[dip.Inum][name] == inum && dip.Kind == 2 @C02
@@ -140,7 +150,8 @@ package dir
 //@   requires dirReady(dip, op)
 //@   preserves [allocInv] allocInv() @C15 @C04
 //@   allocates buf.Buf, marshal.Enc, marshal.Dec, cell:uint64, []uint8, dir.dirEnt, dcache.Dcache, map[string]dcache.Dentry, nfstypes.Entry3
-//@   modifies dnames, dip.Size, dip.Dcache, dcache.Dcache.Lastoff, dip.blks[*], dirtyinum, wroteinum, abits, op.Atxn.allocBnums, []uint64@alloctxn.AllocTxn.allocBnums, []uint8, buf.Buf.dirty, nfstypes.Entry3, cell:*nfstypes.Entry3, map[string]dcache.Dentry, emitted, emitany, emitlast
+//@   modifies dnames, dip.Size, dip.Dcache, dcache.Dcache.Lastoff, dip.blks[*], dirtyinum, wroteinum, abits, op.Atxn.allocBnums, []uint64@alloctxn.AllocTxn.allocBnums, []uint8@buf.Buf.Data, buf.Buf.dirty, nfstypes.Entry3, cell:*nfstypes.Entry3, map[string]dcache.Dentry, emitted, emitany, emitlast
+//@   ensures [ibits-same] abits[theIalloc] == old(abits)[theIalloc] @C05
 //@   ghostexit dnames = ite(result, store(dnames, dip.Inum, store(dnames[dip.Inum], name, 0)), dnames)
 //@   panic_assumed "RemName"
 //@   ensures [Fn5-rem] result ==> old(dnames)[dip.Inum][name] != 0 && dnames[dip.Inum][name] == 0 && dip.Kind == 2 @C02
@@ -152,7 +163,8 @@ package dir
 //@   requires dirReady(dip, op) && parent < 32768
 //@   preserves [allocInv] allocInv() @C15 @C04
 //@   allocates buf.Buf, marshal.Enc, marshal.Dec, cell:uint64, []uint8, dir.dirEnt, dcache.Dcache, map[string]dcache.Dentry, nfstypes.Entry3
-//@   modifies dnames, dip.Size, dip.Dcache, dcache.Dcache.Lastoff, dip.blks[*], dirtyinum, wroteinum, abits, op.Atxn.allocBnums, []uint64@alloctxn.AllocTxn.allocBnums, []uint8, buf.Buf.dirty, nfstypes.Entry3, cell:*nfstypes.Entry3, map[string]dcache.Dentry, emitted, emitany, emitlast
+//@   modifies dnames, dip.Size, dip.Dcache, dcache.Dcache.Lastoff, dip.blks[*], dirtyinum, wroteinum, abits, op.Atxn.allocBnums, []uint64@alloctxn.AllocTxn.allocBnums, []uint8@buf.Buf.Data, buf.Buf.dirty, nfstypes.Entry3, cell:*nfstypes.Entry3, map[string]dcache.Dentry, emitted, emitany, emitlast
+//@   ensures [ibits-same] abits[theIalloc] == old(abits)[theIalloc] @C05
 //@   ensures [I6-dots] result ==> dnames[dip.Inum]["."] == dip.Inum && dnames[dip.Inum][".."] == parent @C04
 //@   ensures dirModsOK(dip, op)
 
@@ -161,7 +173,8 @@ package dir
 //@   requires dirReady(dip, op) && dip.Inum < 32768
 //@   preserves [allocInv] allocInv() @C15 @C04
 //@   allocates buf.Buf, marshal.Enc, marshal.Dec, cell:uint64, []uint8, dir.dirEnt, dcache.Dcache, map[string]dcache.Dentry, nfstypes.Entry3
-//@   modifies dnames, dip.Size, dip.Dcache, dcache.Dcache.Lastoff, dip.blks[*], dirtyinum, wroteinum, abits, op.Atxn.allocBnums, []uint64@alloctxn.AllocTxn.allocBnums, []uint8, buf.Buf.dirty, nfstypes.Entry3, cell:*nfstypes.Entry3, map[string]dcache.Dentry, emitted, emitany, emitlast
+//@   modifies dnames, dip.Size, dip.Dcache, dcache.Dcache.Lastoff, dip.blks[*], dirtyinum, wroteinum, abits, op.Atxn.allocBnums, []uint64@alloctxn.AllocTxn.allocBnums, []uint8@buf.Buf.Data, buf.Buf.dirty, nfstypes.Entry3, cell:*nfstypes.Entry3, map[string]dcache.Dentry, emitted, emitany, emitlast
+//@   ensures [ibits-same] abits[theIalloc] == old(abits)[theIalloc] @C05
 //@   ensures [I6-rootdots] result ==> dnames[dip.Inum]["."] == dip.Inum && dnames[dip.Inum][".."] == dip.Inum @C04
 //@   ensures dirModsOK(dip, op)
 
@@ -176,7 +189,8 @@ package dir
 //@   ghostset emitted = empty
 //@   ghostset emitany = false
 //@   allocates buf.Buf, marshal.Enc, marshal.Dec, cell:uint64, []uint8, dir.dirEnt, nfstypes.Entryplus3, cache.Cslot, inode.Inode, []uint64
-//@   modifies dip.blks[*], dirtyinum, wroteinum, abits, op.Atxn.allocBnums, []uint64@alloctxn.AllocTxn.allocBnums, []uint8, buf.Buf.dirty, nfstypes.Entryplus3, cell:*nfstypes.Entryplus3, emitted, emitany, emitlast, cache.Cslot.Obj, map[uint64]*inode.Inode, held
+//@   modifies dip.blks[*], dirtyinum, wroteinum, abits, op.Atxn.allocBnums, []uint64@alloctxn.AllocTxn.allocBnums, []uint8@buf.Buf.Data, buf.Buf.dirty, nfstypes.Entryplus3, cell:*nfstypes.Entryplus3, emitted, emitany, emitlast, cache.Cslot.Obj, map[uint64]*inode.Inode, held
+//@   ensures [ibits-same] abits[theIalloc] == old(abits)[theIalloc] @C05
 //@   ensures [E1-sound] emitSound(dip, start, dip.Size) @C13
 //@   ensures [E3-complete] emitComplete(dip, start, ite(result, dip.Size, emitlast + 128)) @C13
 //@   ensures [E5-progress] !result ==> emitany && emitlast >= start && emitlast < dip.Size @C13 @C06
@@ -187,3 +201,4 @@ package dir
 //@   loop 0 invariant [cpl] emitComplete(dip, start, off)
 //@   loop 0 invariant [last] (emitany ==> emitlast < off && emitlast >= start && emitted[emitlast]) && (!emitany ==> forall o uint64 :: !emitted[o])
 //@   loop 0 decreases dip.Size - off
+//@   loop 0 invariant [ibits] abits[theIalloc] == old(abits)[theIalloc]
